@@ -172,6 +172,14 @@ def step (st : St) (ts : List String) : St × String :=
       | some f' => ({ file := f', ini := none }, dumpNonEmpty (Ini.openFile f' false))
       | none => (s0, "oob")
     | _, _ => (st, "bad-op")
+  | "inidir" :: sw :: ps =>
+    match pairs ps with
+    | some sets =>
+      let i0 := Ini.readUnreadable (sw == "1")
+      let i1 := sets.foldl (fun i nv => Ini.set i nv.1 nv.2) i0
+      -- the destructor's `write` cannot open a directory for writing: nothing changes
+      (st, dump i0 ++ " | " ++ dump i1 ++ " | dir")
+    | none => (st, "bad-op")
   | "tabw" :: args =>
     match tableArgs args with
     | some (cols, items, lens) => (st, hex (Csv.writeItemsG 44 46 cols items) ++ lensText lens)
